@@ -925,7 +925,7 @@ impl Vm {
           ),
         )
       },
-      ImportResult::CompileError => ExecutionSignal::Exit,
+      ImportResult::CompileError => ExecutionSignal::CompileError,
     };
 
     self.pop_roots(2);
@@ -1007,7 +1007,7 @@ impl Vm {
           ),
         )
       },
-      ImportResult::CompileError => ExecutionSignal::Exit,
+      ImportResult::CompileError => ExecutionSignal::CompileError,
     };
 
     self.pop_roots(2);
